@@ -258,9 +258,8 @@ func writeSegmented(nc net.Conn, wire []byte, rng *rand.Rand, segmented bool) er
 }
 
 // rawClient: k requests back-to-back on one connection, then k responses.
-func (e *env) rawClient(ci int, rng *rand.Rand, addr string) {
+func (e *env) rawClient(name string, rng *rand.Rand, addr string) {
 	c := e.c
-	name := fmt.Sprintf("r%d", ci)
 	nc, err := c.Cell.Dial(addr)
 	if err != nil {
 		e.r.Inconclusive(fmt.Sprintf("case %d: dial: %v", c.Index, err))
@@ -358,7 +357,8 @@ func (e *env) rawClient(ci int, rng *rand.Rand, addr string) {
 				case isTimeout(rerr):
 					e.r.Inconclusive(fmt.Sprintf("case %d: read watchdog fired waiting for a response", c.Index))
 				case isConnEnd(rerr):
-					e.violate("c10:keepalive:connection-closed-early", fmt.Sprintf("raw client, connection %s (%s): no request so far dictated a close, %d responses of this batch were read, then the stream ended (%v) instead of the response to %s\nwhat the server reported for this connection:\n%sevents of the connection:\n%s", name, nc.LocalAddr(), i, rerr, p, e.log.Slice(nc.LocalAddr().String(), 6), e.log.Slice(name, 30)))
+					why := e.serverCloseReason(nc.LocalAddr().String())
+					e.violate("c10:keepalive:connection-closed-early", fmt.Sprintf("raw client, connection %s (%s): no request so far dictated a close and the client has not closed anything, %d responses of this batch were read, then the stream ended (%v) instead of the response to %s\nwhat the server reported for this connection (%s):\n%sevents of the connection:\n%s", name, nc.LocalAddr(), i, rerr, p, why, e.log.Slice(nc.LocalAddr().String(), 6), e.log.Slice(name, 30)))
 				default:
 					e.violate("c10:"+e.cls+":response-undecodable", fmt.Sprintf("raw client, connection %s: reading the response to %s failed: %v\nevents of the connection:\n%s", name, p, rerr, e.log.Slice(name, 40)))
 				}
@@ -386,12 +386,36 @@ func (e *env) rawClient(ci int, rng *rand.Rand, addr string) {
 			return
 		}
 		if err := <-werr; err != nil && !e.isFinal() {
-			e.violate("c10:keepalive:connection-closed-early", fmt.Sprintf("raw client, connection %s: writing the pipelined requests failed with %v although no request dictated a close\n%s", name, err, e.log.Slice(name, 30)))
+			why := e.serverCloseReason(nc.LocalAddr().String())
+			e.violate("c10:keepalive:connection-closed-early", fmt.Sprintf("raw client, connection %s (%s): writing the pipelined requests failed with %v although no request dictated a close (%s)\n%s%s", name, nc.LocalAddr(), err, why, e.log.Slice(nc.LocalAddr().String(), 6), e.log.Slice(name, 30)))
 			e.finishConn(completed)
 			return
 		}
 	}
 	e.finishConn(completed)
+}
+
+// serverCloseReason waits (briefly: the engine reports a close behind the jobs
+// still queued for the connection) for what the server itself says about the
+// end of the connection with this client address and classifies it (for the
+// detail only: client ports are reused within a case, the match can be stale).
+func (e *env) serverCloseReason(addr string) string {
+	for i := 0; i < 150; i++ {
+		if info, ok := e.log.Find("server.onclose", addr); ok {
+			switch {
+			case info == "err=EOF":
+				return "server-reported-peer-eof: the server believes the client closed"
+			case info == "err=<nil>":
+				return "server-closed-without-error"
+			case strings.Contains(info, "timeout"):
+				return "server-reported-timeout"
+			default:
+				return "server-reported-other-error"
+			}
+		}
+		time.Sleep(20 * time.Millisecond)
+	}
+	return "server-reported-nothing"
 }
 
 func (e *env) finishConn(completed int) {
@@ -436,7 +460,8 @@ func (e *env) largeCloseClient(ci int, rng *rand.Rand, addr string) {
 			if e.isFinal() {
 				e.violate("c10:"+e.cls+":response-never-completed", fmt.Sprintf("raw client (late reader), connection %s: large keep-alive response to %s never arrived completely (final history): %v\n%s", name, p, rerr, e.log.Slice(name, 20)))
 			} else if isConnEnd(rerr) {
-				e.violate("c10:keepalive:connection-closed-early", fmt.Sprintf("raw client (late reader), connection %s: the stream ended (%v) instead of the large response to %s\n%s", name, rerr, p, e.log.Slice(name, 20)))
+				why := e.serverCloseReason(nc.LocalAddr().String())
+				e.violate("c10:keepalive:connection-closed-early", fmt.Sprintf("raw client (late reader), connection %s: the stream ended (%v) instead of the large response to %s (%s)\n%s", name, rerr, p, why, e.log.Slice(name, 20)))
 			} else {
 				e.r.Inconclusive(fmt.Sprintf("case %d: %v", c.Index, rerr))
 			}
@@ -478,4 +503,43 @@ func (e *env) largeCloseClient(ci int, rng *rand.Rand, addr string) {
 		e.expectEnd(nc, br, p, false, "raw(late reader)")
 	}
 	e.finishConn(completed)
+}
+
+// churnClient exercises descriptor reuse under close churn. Half of the
+// clients ("churners") send one close-dictating request to a handler that
+// takes 100-400 us and give up (close or half-close) while it is still busy,
+// so that the server and the peer end the same connection at the same time;
+// the other half ("victims") keep opening fresh connections and run ordinary
+// keep-alive histories on them under the full oracle: nothing may end a
+// victim's connection early.
+func (e *env) churnClient(ci int, rng *rand.Rand, addr string) {
+	c := e.c
+	if ci%2 == 1 {
+		for it := 0; it < c.Rounds*20 && !e.isFinal(); it++ {
+			e.rawClient(fmt.Sprintf("v%d.%d", ci, it), rng, addr)
+			e.r.Count("churn_victim_connections", 1)
+		}
+		return
+	}
+	for it := 0; it < c.Rounds*150 && !e.isFinal(); it++ {
+		nc, err := c.Cell.Dial(addr)
+		if err != nil {
+			continue
+		}
+		seq := 0
+		p := e.planBatch(rng, fmt.Sprintf("c%d.%d", ci, it), &seq, 1, 0, -1)[0]
+		p.Method, p.Body, p.ChunkReq, p.Resp, p.CL = "GET", 0, false, 5, true
+		p.Jitter = 100 + rng.Intn(300)
+		_ = nc.SetDeadline(time.Now().Add(watchdogRead))
+		if _, err := nc.Write(p.wire(rng)); err == nil {
+			time.Sleep(time.Duration(50+rng.Intn(250)) * time.Microsecond)
+			if tc, ok := nc.(*net.TCPConn); ok && rng.Intn(2) == 0 {
+				_ = tc.CloseWrite()
+				_, _ = io.Copy(io.Discard, nc)
+			}
+		}
+		_ = nc.Close()
+		bump()
+		e.r.Count("churn_connections_closed_from_both_sides", 1)
+	}
 }
